@@ -705,6 +705,24 @@ static char c_sock_connect_refused (char **av) { int d = ai (av, 1), e = ai (av,
 	if (ok) { S[d].b = 2; return 'S'; }
 	S[d].b = 4;                                     /* the kernel has bound it: it can neither listen nor connect again here */
 	return 'F'; }
+/* connect to a listener whose accept queue is full: the handshake never completes, the call times out */
+static char c_sock_connect_timeout (char **av) { int d = ai (av, 1), e = ai (av, 2); LIB (); NEED (d, T_SOCK); ERRARG (e, d);
+	if (S[d].b != 0 || S[d].c != 0) return '-';
+	int l = __real_socket (AF_INET, SOCK_STREAM, 0), filler = __real_socket (AF_INET, SOCK_STREAM, 0);
+	struct sockaddr_in sin; socklen_t sl = sizeof sin;
+	memset (&sin, 0, sizeof sin); sin.sin_family = AF_INET; sin.sin_addr.s_addr = htonl (INADDR_LOOPBACK);
+	bind (l, (struct sockaddr *) &sin, sizeof sin); listen (l, 0); getsockname (l, (struct sockaddr *) &sin, &sl);
+	connect (filler, (struct sockaddr *) &sin, sizeof sin);                 /* takes the only place in the queue */
+	PSocketAddress *a = p_socket_address_new ("127.0.0.1", ntohs (sin.sin_port));
+	char r = 'F';
+	if (a != NULL) {
+		p_socket_set_timeout (S[d].p, 60);
+		pboolean ok = p_socket_connect (S[d].p, a, e_in (e)); e_out (e);
+		p_socket_address_free (a);
+		if (ok) { S[d].b = 2; r = 'S'; } else S[d].b = 4;
+	}
+	__real_close (filler); __real_close (l);
+	return r; }
 static char c_sock_accept (char **av) { int s = ai (av, 1), d = ai (av, 2), e = ai (av, 3); LIB (); NEED (s, T_SOCK); EMPTY (d); ERRARG2 (e, d, s);
 	if (S[s].b != 1 || S[s].c != 0) return '-';
 	p_socket_set_timeout (S[s].p, S[s].sh[0].k > 0 ? 3000 : 40);          /* short: nobody is waiting, the call must time out */
@@ -883,7 +901,7 @@ static const struct { const char *name; char (*fn) (char **); } CALLS[] = {
 	{ "dir_free", c_dir_free }, { "file_remove_missing", c_file_remove_missing },
 	{ "sa_new", c_sa_new }, { "sa_any", c_sa_any }, { "sa_loop", c_sa_loop }, { "sa_native", c_sa_native }, { "sa_addr", c_sa_addr }, { "sa_free", c_sa_free },
 	{ "sock_new", c_sock_new }, { "sock_bad", c_sock_bad }, { "sock_listen", c_sock_listen }, { "sock_connect", c_sock_connect },
-	{ "sock_connect_refused", c_sock_connect_refused }, { "sock_accept", c_sock_accept }, { "sock_local", c_sock_local }, { "sock_remote", c_sock_remote },
+	{ "sock_connect_refused", c_sock_connect_refused }, { "sock_connect_timeout", c_sock_connect_timeout }, { "sock_accept", c_sock_accept }, { "sock_local", c_sock_local }, { "sock_remote", c_sock_remote },
 	{ "sock_udp_echo", c_sock_udp_echo }, { "sock_close", c_sock_close }, { "sock_free", c_sock_free }, { "sock_from_fd", c_sock_from_fd },
 	{ "sem_new", c_sem_new }, { "sem_cycle", c_sem_cycle }, { "sem_own", c_sem_own }, { "sem_free", c_sem_free },
 	{ "shm_new", c_shm_new }, { "shm_own", c_shm_own }, { "shm_cycle", c_shm_cycle }, { "shm_free", c_shm_free },
@@ -992,6 +1010,7 @@ STD (sock_basic, "sock_new 0 0 1", "sock_close 0 1", "sock_close 0 1", "sock_fre
 STD (sock_tcp_pair, "sock_new 0 0 9", "sock_listen 0 9", "sock_new 1 0 9", "sock_connect 1 0 9", "sock_accept 0 2 9", "sock_local 1 3 9", "sock_remote 2 4 9",
      "sa_free 3", "sa_free 4", "sock_free 2", "sock_free 1", "sock_free 0", "err_free 9")
 STD (sock_refused, "sock_new 0 0 9", "sock_connect_refused 0 9", "sock_free 0", "err_free 9")
+STD (sock_connect_timeout, "sock_new 0 0 9", "sock_connect_timeout 0 9", "sock_listen 0 9", "sock_free 0", "err_free 9")
 STD (sock_accept_timeout, "sock_new 0 0 9", "sock_listen 0 9", "sock_accept 0 1 9", "sock_free 1", "sock_free 0", "err_free 9")
 STD (sock_udp, "sock_new 0 1 9", "sock_listen 0 9", "sock_udp_echo 0 1 9", "sa_free 1", "sock_free 0", "err_free 9")
 STD (sock_from_fd, "sock_from_fd 0 9", "sock_remote 0 1 9", "sa_free 1", "sock_free 0", "err_free 9")
@@ -1044,6 +1063,67 @@ STD (cross_everything, "strdup 0", "list_new 1", "list_append 1 4", "tree_new 2 
      "shmbuf_free 18", "rwlockg_free 17", "thread_unref 16", "loader_free 15", "tls_free 14", "mutex_free 13", "sem_free 12", "sock_free 11", "sa_free 10",
      "dir_free 8", "str_free 7", "hash_free 6", "ini_free 5", "err_free 4", "ht_free 3", "tree_free 2", "list_free 1", "str_free 0", "err_free 9")
 
+/* thorough tier: several scenarios in one process, one after the other */
+STD (long_containers,
+     "strdup 0", "strtok 0", "str_free 0", "strchomp 0 0", "strchomp 1 1", "strchomp 2 2",
+     "str_free 0", "str_free 1", "str_free 2", "list_new 0", "list_append 0 1", "list_prepend 0 2",
+     "list_remove 0 1", "list_append 0 3", "list_remove 0 9", "list_free 0", "tree_new 0 1", "tree_insert 0 1",
+     "tree_insert 0 2", "tree_insert 0 3", "tree_insert 0 4", "tree_remove 0 2", "tree_free 0", "tree_new 0 2",
+     "tree_insert 0 1", "tree_insert 0 2", "tree_insert 0 3", "tree_insert 0 4", "tree_clear 0", "tree_insert 0 7",
+     "tree_free 0", "ht_new 0", "ht_insert 0 1 10", "ht_insert 0 102 20", "ht_insert 0 1 30", "ht_remove 0 102",
+     "ht_remove 0 55", "ht_free 0", "ht_new 0", "ht_insert 0 1 10", "ht_insert 0 2 20", "ht_insert 0 3 30",
+     "ht_keys 0 1", "ht_values 0 2", "list_free 1", "list_free 2", "ht_free 0", "ht_new 0",
+     "ht_insert 0 1 10", "ht_insert 0 2 10", "ht_insert 0 3 20", "ht_lbv 0 1 10", "ht_lbv 0 2 99", "list_free 1",
+     "list_free 2", "ht_free 0", "err_new 0", "err_set_error 0", "err_set_message 0", "err_clear 0",
+     "err_set_message 0", "err_free 0", "err_new_literal 0", "err_copy 0 1", "err_free 0", "err_free 1",
+     "err_set_p 0", "err_set_p 0", "err_set_p x", "err_free 0", "ini_new 0 1", "ini_parse 0 1",
+     "ini_parse 0 1", "ini_free 0", "err_free 1", "ini_new 0 2", "ini_parse 0 x", "ini_sections 0 1",
+     "ini_keys 0 2 2", "ini_keys 0 7 3", "strlist_free 1", "strlist_free 2", "strlist_free 3", "ini_free 0",
+     "ini_new 0 2", "ini_parse 0 x", "ini_string 0 0 0 1", "ini_string 0 0 9 2", "ini_int 0 2 3", "ini_double 0 2 3",
+     "ini_bool 0 2 2", "ini_int 0 2 9", "str_free 1", "str_free 2", "ini_free 0", "ini_new 0 2",
+     "ini_parse 0 x", "ini_list 0 0 1 1", "ini_list 0 0 0 2", "ini_list 0 2 5 3", "strlist_free 1", "strlist_free 2",
+     "strlist_free 3", "ini_free 0")
+/* thorough tier: several scenarios in one process, one after the other */
+STD (long_system,
+     "hash_new 0 0", "hash_update 0", "hash_string 0 1", "hash_reset 0", "hash_update 0", "hash_string 0 2",
+     "str_free 1", "str_free 2", "hash_free 0", "hash_new 0 5", "hash_update 0", "hash_string 0 1",
+     "hash_reset 0", "hash_update 0", "hash_string 0 2", "str_free 1", "str_free 2", "hash_free 0",
+     "hash_new 0 7", "hash_update 0", "hash_string 0 1", "hash_reset 0", "hash_update 0", "hash_string 0 2",
+     "str_free 1", "str_free 2", "hash_free 0", "hash_new 0 10", "hash_update 0", "hash_string 0 1",
+     "hash_reset 0", "hash_update 0", "hash_string 0 2", "str_free 1", "str_free 2", "hash_free 0",
+     "ipc_key 0 1", "str_free 0", "ipc_key 0 0", "str_free 0", "dir_new 0 0 1", "dir_path 0 2",
+     "str_free 2", "dir_free 0", "err_free 1", "dir_new 0 0 x", "dir_next 0 1 2", "dirent_free 1",
+     "dir_next 0 1 2", "dirent_free 1", "dir_next 0 1 2", "dirent_free 1", "dir_next 0 1 2", "dirent_free 1",
+     "dir_next 0 1 2", "dirent_free 1", "dir_next 0 1 2", "dirent_free 1", "dir_rewind 0", "dir_next 0 1 2",
+     "dirent_free 1", "dir_free 0", "err_free 2", "dir_new 0 1 1", "dir_free 0", "err_free 1",
+     "dir_new 0 1 x", "dir_free 0", "sa_any 0 0", "sa_any 1 1", "sa_loop 2 0", "sa_loop 3 1",
+     "sa_native 4", "sa_free 0", "sa_free 1", "sa_free 2", "sa_free 3", "sa_free 4",
+     "sa_new 0 1", "sa_addr 0 1", "str_free 1", "sa_free 0", "sock_new 0 0 9", "sock_listen 0 9",
+     "sock_new 1 0 9", "sock_connect 1 0 9", "sock_accept 0 2 9", "sock_local 1 3 9", "sock_remote 2 4 9", "sa_free 3",
+     "sa_free 4", "sock_free 2", "sock_free 1", "sock_free 0", "err_free 9", "sock_new 0 0 9",
+     "sock_connect_refused 0 9", "sock_free 0", "err_free 9", "sock_new 0 0 9", "sock_listen 0 9", "sock_accept 0 1 9",
+     "sock_free 1", "sock_free 0", "err_free 9", "sock_new 0 1 9", "sock_listen 0 9", "sock_udp_echo 0 1 9",
+     "sa_free 1", "sock_free 0", "err_free 9", "sock_from_fd 0 9", "sock_remote 0 1 9", "sa_free 1",
+     "sock_free 0", "err_free 9", "file_remove_missing 0", "file_remove_missing 0", "err_free 0", "file_remove_missing x")
+/* thorough tier: several scenarios in one process, one after the other */
+STD (long_ipc_threads,
+     "sem_new 0 0 0 9", "sem_new 1 0 0 9", "sem_free 1", "sem_free 0", "err_free 9", "sem_new 0 0 0 9",
+     "sem_new 1 0 0 9", "sem_free 0", "sem_own 1", "sem_free 1", "err_free 9", "shm_new 0 0 0 9",
+     "shm_new 1 0 0 9", "shm_free 1", "shm_free 0", "err_free 9", "shm_new 0 0 0 9", "shm_new 1 0 1 9",
+     "shm_cycle 1 9", "shm_free 0", "shm_own 1", "shm_free 1", "err_free 9", "sysfail mmap",
+     "shm_new 0 0 0 9", "shm_free 0", "err_free 9", "shmbuf_new 0 1 0 9", "shmbuf_new 1 1 0 9", "shmbuf_rw 1 9",
+     "shmbuf_free 1", "shmbuf_free 0", "err_free 9", "shm_new 0 1 3 9", "shmbuf_new 1 1 0 9", "shmbuf_free 1",
+     "shm_free 0", "err_free 9", "mutex_new 0", "cond_new 1", "rwlock_new 2", "spin_new 3",
+     "prof_new 4", "lock_cycle 0", "lock_cycle 1", "lock_cycle 2", "lock_cycle 3", "mutex_free 0",
+     "cond_free 1", "rwlock_free 2", "spin_free 3", "prof_free 4", "rwlockg_new 0", "lock_cycle 0",
+     "rwlockg_free 0", "sysfail pthread_cond_init", "cond_new 0", "cond_free 0", "sysfail pthread_cond_init", "rwlockg_new 1",
+     "rwlockg_free 1", "thread_run 0 1 0 x", "thread_unref 0", "thread_run 0 0 0 x", "thread_unref 0", "tls_new 1",
+     "thread_run 0 1 1 1", "thread_unref 0", "tls_free 1", "tls_new 0", "tls_set 0", "tls_get 0",
+     "tls_set 0", "tls_replace 0", "tls_free 0", "tls_new 0", "sysfail pthread_key_create", "tls_set 0",
+     "tls_set 0", "tls_free 0", "cur_thread", "cur_thread", "loader_new 0 0", "loader_sym 0",
+     "loader_free 0", "loader_new 0 1", "loader_free 0", "loader_new 0 2", "loader_free 0", "loader_err 1",
+     "str_free 1", "loader_err 1", "str_free 1", "mmap_new 0 1 9", "mmap_free 0", "err_free 9")
+
 #define E(n) { #n, scen_##n }
 static const struct { const char *name; void (*fn) (void); } SCENARIOS[] = {
 	E (init_only), E (str_dup), E (str_chomp), E (str_tod), E (list_append3), E (list_prepend3), E (list_mixed),
@@ -1055,7 +1135,7 @@ static const struct { const char *name; void (*fn) (void); } SCENARIOS[] = {
 	E (ipc_key_posix), E (ipc_key_sysv), E (ipc_tmpdir),
 	E (dir_basic), E (dir_entries), E (dir_missing), E (file_missing),
 	E (sa_v4), E (sa_v6), E (sa_bad), E (sa_misc),
-	E (sock_basic), E (sock_tcp_pair), E (sock_refused), E (sock_accept_timeout), E (sock_udp), E (sock_from_fd), E (sock_bad), E (sock_syscall_fail),
+	E (sock_basic), E (sock_tcp_pair), E (sock_refused), E (sock_connect_timeout), E (sock_accept_timeout), E (sock_udp), E (sock_from_fd), E (sock_bad), E (sock_syscall_fail),
 	E (sem_basic), E (sem_two), E (sem_own),
 	E (shm_basic), E (shm_two_equal), E (shm_two_smaller), E (shm_two_larger), E (shm_mmap_fail), E (shm_ftruncate_fail), E (shm_open_fail), E (shm_zero_size),
 	E (shmbuf_basic), E (shmbuf_two), E (shmbuf_two_diff), E (shmbuf_small),
@@ -1063,6 +1143,7 @@ static const struct { const char *name; void (*fn) (void); } SCENARIOS[] = {
 	E (thread_join), E (thread_detached), E (thread_tls_body), E (thread_two), E (thread_create_fail), E (tls_main), E (tls_key_fail), E (cur_thread),
 	E (loader_basic), E (loader_missing), E (loader_dlopen_fail), E (mmap_basic), E (mmap_fail),
 	E (cross_ini_containers), E (cross_dir_hash), E (cross_ipc_socket), E (cross_error_chain), E (cross_everything),
+	E (long_containers), E (long_system), E (long_ipc_threads),
 	{ NULL, NULL }
 };
 
@@ -1227,6 +1308,10 @@ int main (void) {
 			char cnt[4096];
 			a_on = 0;
 			counts (cnt, sizeof cnt, 1);
+			/* the same line as the model's; what is wrong, if anything, follows it */
+			{ char *extra = strstr (cnt, " badclose=");
+			  int clean = strstr (cnt, "live=0 fds=0 maps=0 names=0 keys=0 badclose=0 badfree=0") != NULL;
+			  if (extra && clean) *extra = 0; }
 			fprintf (out, "end n=%ld closes=%ld %s\n", a_idx, w_closes, cnt);
 			names_remove ();
 			in_seq = 0;
